@@ -24,8 +24,13 @@ class Plan:
         raise NotImplementedError
 
 
+QUICK_SCALE = 2     # the quick tier runs twice the nominal number of programs: detection of the stored seeded changes
+                    # turned out to depend on the seed for rarely reached triggers; the programs of a run are seeded
+                    # `seed * 1000003 + i`, so a larger run only ADDS programs
+
+
 def _n(tier: str, quick: int, thorough: int, search: int | None = None) -> int:
-    return {"quick": quick, "thorough": thorough, "search": search or thorough}[tier]
+    return {"quick": quick * QUICK_SCALE, "thorough": thorough, "search": search or thorough}[tier]
 
 
 class IterationPlan(Plan):
@@ -104,6 +109,9 @@ class PredicatePlan(Plan):
         exhaustive = False
         rule = (f"{n} programs x 40 random predicates/expressions (depth <= 3, 0-3 operands) x one random row over -4..4"
                 f"; {m} programs x 8 predicate objects used in a join and inspected again")
+        if self.with_sql:
+            progs.append(gen.prog_range_edges().text())
+            rule += "; every strided range start -4..5, step +-2/+-3, seven strides long, against every value -6..8"
         if tier in ("thorough", "search"):
             nch = 32
             progs.extend(gen.prog_pred_enum(c, nch, depth=2, limit=60000).text() for c in range(nch))
